@@ -359,24 +359,77 @@ def run_dns(case, ctx):
             r.fail("killed-flow-error-hook-count", "dns_error fired %d times" % ne)
 
 
-# =========================================================================================== HTTP/1
+# =========================================================================================== HTTP/1 and HTTP/2
 REQ_HOOKS = ("requestheaders", "request")
 RESP_HOOKS = ("responseheaders", "response")
+H1_END = b"0\r\n\r\n"
+
+
+def _http_common(case):
+    hook = case["hook"]
+    stream = case.get("stream") or "none"
+    action = case["action"] if case["action"] != "drop" else "kill"
+    # the hook that fires after a *streamed* body has already been forwarded: only the end of the message is
+    # still outstanding, edits of the body cannot apply any more
+    after_streamed_body = (stream == "req" and hook == "request") or (stream == "resp" and hook == "response")
+    if after_streamed_body and action == "edit":
+        action = "resume"
+    return hook, stream, action, after_streamed_body
+
+
+def _judge_http(r, hook, action, gone, after_streamed_body, n_body, n_orig, n_edit, ended, extra_after_kill, flow, names,
+                aborted):
+    """shared verdict for HTTP/1 and HTTP/2 once the schedule has run.
+    n_body/n_orig/n_edit: occurrences of the body tag / the original tag of the intercepted part / the edited tag
+    at the destination; ended: destination saw a complete message; extra_after_kill: what the destination received
+    for this flow after the kill; aborted: destination saw the message aborted (None = not applicable)"""
+    if action == "resume":
+        if n_body > 1 or (n_body != 1 and not gone):
+            r.fail("not-forwarded-exactly-once", "count=%d" % n_body)
+        elif not gone and not ended:
+            r.fail("message-not-completed-after-resume", "")
+    elif action == "edit":
+        if n_orig:
+            r.fail("original-forwarded-after-edit", "")
+        if n_edit > 1 or (n_edit != 1 and not gone):
+            r.fail("edit-not-forwarded-exactly-once", "count=%d" % n_edit)
+    else:
+        if extra_after_kill:
+            r.fail("forwarded-after-kill" + (":streamed" if after_streamed_body else ""), repr(extra_after_kill)[:200])
+        elif ended:
+            r.fail("killed-message-completed" + (":streamed" if after_streamed_body else ""), "")
+        elif aborted is False and not gone:
+            r.fail("killed-message-not-aborted" + (":streamed" if after_streamed_body else ""),
+                   "the destination was left with an unfinished message and no abort signal")
+        if flow.error is None:
+            r.fail("killed-flow-without-error")
+        ne = names.count("error")
+        if ne > 1 or (ne != 1 and hook != "response"):
+            r.fail("killed-flow-error-hook-count", "error fired %d times: %r" % (ne, names))
+        if hook in REQ_HOOKS and "response" in names:
+            r.fail("response-hook-after-kill", repr(names))
 
 
 def run_http1(case, ctx):
     import stream_harness as sh
+    from mitmproxy.connection import ConnectionState
     from mitmproxy.proxy.layers import http as hl
 
-    hook = case["hook"]
-    action = case["action"] if case["action"] != "drop" else "kill"
-    r = R(ctx, "http1", hook, action)
+    hook, stream, action, after_streamed_body = _http_common(case)
+    r = R(ctx, "http1" + ("" if stream == "none" else "+stream-" + stream), hook, action)
     pctx = sh.make_context(sh.cached_options())
     lay = hl.HttpLayer(pctx, hl.HTTPMode.regular)
     state = {"held": None}
 
     def pol(cmd):
-        if cmd.name == hook and state["held"] is None and cmd.flow.request.path == "/p1":
+        fl = getattr(cmd, "flow", None)
+        if fl is None or getattr(fl, "request", None) is None or fl.request.path != "/p1":
+            return None
+        if cmd.name == "requestheaders" and stream == "req":
+            fl.request.stream = True
+        if cmd.name == "responseheaders" and stream == "resp":
+            fl.response.stream = True
+        if cmd.name == hook and state["held"] is None:
             state["held"] = cmd
             return sh.HOLD
         return None
@@ -384,11 +437,20 @@ def run_http1(case, ctx):
     d = sh.StreamDriver(pctx, lay, hook_policy=pol)
     d.start()
     body_later = "same" in case["extras"]
-    req_head = (b"POST http://example.com/p1 HTTP/1.1\r\nHost: example.com\r\nX-Tag: HDRORIG\r\n"
-                b"Content-Length: 8\r\n\r\n")
-    req_body = b"ORIGREQ!"
-    resp_head = b"HTTP/1.1 200 OK\r\nX-Tag: RHDRORIG\r\nContent-Length: 9\r\n\r\n"
-    resp_body = b"ORIGRESP!"
+    if stream == "req":
+        req_head = (b"POST http://example.com/p1 HTTP/1.1\r\nHost: example.com\r\nX-Tag: HDRORIG\r\n"
+                    b"Transfer-Encoding: chunked\r\n\r\n")
+        req_body = b"8\r\nORIGREQ!\r\n" + H1_END
+    else:
+        req_head = (b"POST http://example.com/p1 HTTP/1.1\r\nHost: example.com\r\nX-Tag: HDRORIG\r\n"
+                    b"Content-Length: 8\r\n\r\n")
+        req_body = b"ORIGREQ!"
+    if stream == "resp":
+        resp_head = b"HTTP/1.1 200 OK\r\nX-Tag: RHDRORIG\r\nTransfer-Encoding: chunked\r\n\r\n"
+        resp_body = b"9\r\nORIGRESP!\r\n" + H1_END
+    else:
+        resp_head = b"HTTP/1.1 200 OK\r\nX-Tag: RHDRORIG\r\nContent-Length: 9\r\n\r\n"
+        resp_body = b"ORIGRESP!"
     client = pctx.client
     gone = False
     body_sent = True
@@ -443,14 +505,28 @@ def run_http1(case, ctx):
     flow = state["held"].flow
     if hook in REQ_HOOKS:
         dst_out = server_out
+        dst_conn = lambda: d.servers[-1] if d.servers else None  # noqa: E731
         tags_o = [b"ORIGREQ!"] + ([b"HDRORIG"] if hook == "requestheaders" else [])
+        first_line = b"/p1"
     else:
         def dst_out():
             return d.out(client)
+        dst_conn = lambda: client  # noqa: E731
         tags_o = [b"ORIGRESP!"] + ([b"RHDRORIG"] if hook == "responseheaders" else [])
+        first_line = b"200 OK"
     o = dst_out()
-    if any(cnt(o, t) for t in tags_o) or (hook in REQ_HOOKS and cnt(o, b"/p1")) or (hook in RESP_HOOKS and cnt(o, b"200 OK")):
+    def terminated(o):
+        """a chunked message whose body carries body_tag has been completed (last-chunk seen)"""
+        i = max(o.find(b"ORIGREQ!"), o.find(b"ORIGRESP!"))
+        return i >= 0 and H1_END in o[i:]
+
+    if after_streamed_body:
+        # headers and body were streamed on purpose; what is intercepted is the end of the message
+        if terminated(o):
+            r.fail("forwarded-while-intercepted:streamed", repr(o[-40:]))
+    elif any(cnt(o, t) for t in tags_o) or cnt(o, first_line):
         r.fail("forwarded-while-intercepted", repr(o))
+    snapshot = len(o)
     if action == "edit":
         if hook == "requestheaders":
             flow.request.headers["X-Tag"] = "HDREDIT"
@@ -466,10 +542,11 @@ def run_http1(case, ctx):
         flow.kill()
     d.release(state["held"])
     d.release_all()
-    # finish the exchange
+    # finish the exchange the way the peers would
     if not body_sent and client.state.value & 1:
         d.recv(client, req_body)
-    if hook in REQ_HOOKS and d.servers and d.servers[-1].state.value & 1 and cnt(server_out(), b"/p1") and d.crashed is None:
+    if hook in REQ_HOOKS and d.servers and d.servers[-1].state.value & 1 and cnt(server_out(), b"/p1") and d.crashed is None \
+            and action != "kill":
         d.recv(d.servers[-1], resp_head + resp_body)
     if hook in RESP_HOOKS and not rbody_sent and d.servers[-1].state.value & 1:
         d.recv(d.servers[-1], resp_body)
@@ -482,46 +559,41 @@ def run_http1(case, ctx):
     edit_tag = {"requestheaders": b"HDREDIT", "request": b"EDITREQ!", "responseheaders": b"RHDREDIT", "response": b"EDITRESP!"}[hook]
     orig_tag = {"requestheaders": b"HDRORIG", "request": b"ORIGREQ!", "responseheaders": b"RHDRORIG", "response": b"ORIGRESP!"}[hook]
     body_tag = b"ORIGREQ!" if hook in REQ_HOOKS else b"ORIGRESP!"
-    if action == "resume":
-        n = cnt(o, body_tag)
-        if n > 1 or (n != 1 and not gone):
-            r.fail("not-forwarded-exactly-once", repr(o))
-    elif action == "edit":
-        if cnt(o, orig_tag):
-            r.fail("original-forwarded-after-edit", repr(o))
-        n = cnt(o, edit_tag)
-        if n > 1 or (n != 1 and not gone):
-            r.fail("edit-not-forwarded-exactly-once", repr(o))
-    else:
-        if any(cnt(o, t) for t in tags_o) or cnt(o, body_tag):
-            r.fail("killed-message-forwarded", repr(o))
-        if flow.error is None:
-            r.fail("killed-flow-without-error")
-        ne = names.count("error")
-        if ne > 1 or (ne != 1 and hook != "response"):
-            r.fail("killed-flow-error-hook-count", "error fired %d times: %r" % (ne, names))
-        if hook in REQ_HOOKS and "response" in names:
-            r.fail("response-hook-after-kill", repr(names))
+    n_body = cnt(o, body_tag) if action != "edit" else 1
+    chunked_to_dst = (stream == "req" and hook in REQ_HOOKS) or (stream == "resp" and hook in RESP_HOOKS)
+    ended = (terminated(o) if chunked_to_dst else cnt(o, body_tag) + cnt(o, edit_tag) > 0)
+    dc = dst_conn()
+    aborted = None
+    if after_streamed_body and dc is not None:
+        aborted = not (dc.state & ConnectionState.CAN_WRITE)  # an unfinished chunked message must end with a close
+    _judge_http(r, hook, action, gone, after_streamed_body, n_body, cnt(o, orig_tag), cnt(o, edit_tag), ended,
+                o[snapshot:], flow, names, aborted)
 
 
-# =========================================================================================== HTTP/2
 def run_http2(case, ctx):
     import h2.config
     import h2.connection
     import h2.events
     import stream_harness as sh
+    from mitmproxy.proxy import events as pevents
     from mitmproxy.proxy.layers import http as hl
 
-    hook = case["hook"]
-    action = case["action"] if case["action"] != "drop" else "kill"
-    r = R(ctx, "http2", hook, action)
+    hook, stream, action, after_streamed_body = _http_common(case)
+    r = R(ctx, "http2" + ("" if stream == "none" else "+stream-" + stream), hook, action)
     pctx = sh.make_context(sh.cached_options())
     pctx.client.alpn = b"h2"
     lay = hl.HttpLayer(pctx, hl.HTTPMode.regular)
     state = {"held": None}
 
     def pol(cmd):
-        if cmd.name == hook and state["held"] is None and cmd.flow.request.path == "/s1":
+        fl = getattr(cmd, "flow", None)
+        if fl is None or getattr(fl, "request", None) is None or fl.request.path != "/s1":
+            return None
+        if cmd.name == "requestheaders" and stream == "req":
+            fl.request.stream = True
+        if cmd.name == "responseheaders" and stream == "resp":
+            fl.response.stream = True
+        if cmd.name == hook and state["held"] is None:
             state["held"] = cmd
             return sh.HOLD
         return None
@@ -534,7 +606,7 @@ def run_http2(case, ctx):
         evs.extend(peer.receive_data(data))
         back = peer.data_to_send()
         if back and pctx.client.state.value & 1:
-            d.queue.append(__import__("mitmproxy.proxy.events", fromlist=["x"]).DataReceived(pctx.client, back))
+            d.queue.append(pevents.DataReceived(pctx.client, back))
 
     d.on_send[pctx.client] = from_proxy
     peer.initiate_connection()
@@ -561,7 +633,10 @@ def run_http2(case, ctx):
                 return s
         return None
 
-    resp1 = b"HTTP/1.1 200 OK\r\nX-Tag: RHDRORIG\r\nContent-Length: 9\r\n\r\nORIGRESP!"
+    if stream == "resp":
+        resp1 = b"HTTP/1.1 200 OK\r\nX-Tag: RHDRORIG\r\nTransfer-Encoding: chunked\r\n\r\n9\r\nORIGRESP!\r\n" + H1_END
+    else:
+        resp1 = b"HTTP/1.1 200 OK\r\nX-Tag: RHDRORIG\r\nContent-Length: 9\r\n\r\nORIGRESP!"
     if hook in RESP_HOOKS:
         s1 = server_for(b"ORIGREQ!")
         if s1 is None:
@@ -590,7 +665,10 @@ def run_http2(case, ctx):
                 other_done = (s3 is not None and any(isinstance(e, h2.events.DataReceived) and e.data == b"RESP3" for e in got3)
                               and any(isinstance(e, h2.events.StreamEnded) for e in got3))
         elif ex == "dst-eof" and hook in REQ_HOOKS:
-            pass  # no upstream connection exists yet for the intercepted stream
+            s1 = server_for(b"/s1")
+            if s1 is not None:  # exists only when the request is being streamed
+                gone = True
+                d.close(s1)
         elif ex in ("src-eof", "dst-eof"):
             gone = True
             if (ex == "src-eof") == (hook in REQ_HOOKS):
@@ -607,23 +685,34 @@ def run_http2(case, ctx):
     if other_done is False and not gone:
         r.fail("other-stream-blocked-while-intercepted", "stream 3 events: %r" % [type(e).__name__ for e in evs if getattr(e, "stream_id", None) == 3])
 
-    def all_server_out():
-        return b"".join(d.out(s) for s in d.servers)
+    def s1_out():
+        s = server_for(b"/s1")
+        return b"" if s is None else d.out(s)
 
-    def client_s1():
-        hd = [dict(e.headers) for e in evs if isinstance(e, h2.events.ResponseReceived) and e.stream_id == 1]
-        body = b"".join(e.data for e in evs if isinstance(e, h2.events.DataReceived) and e.stream_id == 1)
-        return hd, body
+    def client_s1(start=0):
+        sel = [e for e in evs[start:] if getattr(e, "stream_id", None) == 1]
+        hd = [dict(e.headers) for e in sel if isinstance(e, h2.events.ResponseReceived)]
+        body = b"".join(e.data for e in sel if isinstance(e, h2.events.DataReceived))
+        ended = any(isinstance(e, h2.events.StreamEnded) for e in sel)
+        reset = any(isinstance(e, h2.events.StreamReset) for e in sel)
+        return hd, body, ended, reset
 
     flow = state["held"].flow
     if hook in REQ_HOOKS:
-        o = all_server_out()
-        if cnt(o, b"ORIGREQ!") or cnt(o, b"/s1") or cnt(o, b"HDRORIG"):
+        o = s1_out()
+        if after_streamed_body:
+            pass  # body streamed on purpose; the h1 upstream leg shows no end-of-message marker for it (see below)
+        elif cnt(o, b"ORIGREQ!") or cnt(o, b"/s1") or cnt(o, b"HDRORIG"):
             r.fail("forwarded-while-intercepted", repr(o))
+        snapshot = len(o)
     else:
-        hd, body = client_s1()
-        if body or (hd and hook == "responseheaders") or hd:
+        hd, body, ended_now, _ = client_s1()
+        if after_streamed_body:
+            if ended_now:
+                r.fail("forwarded-while-intercepted:streamed", "END_STREAM reached the client while `response` is pending")
+        elif body or hd:
             r.fail("forwarded-while-intercepted", "%r %r" % (hd, body))
+        snapshot = len(evs)
     if action == "edit":
         if hook == "requestheaders":
             flow.request.headers["x-tag"] = "HDREDIT"
@@ -645,7 +734,7 @@ def run_http2(case, ctx):
             flush()
         except Exception:
             pass  # the proxy reset the stream (kill): a real client could not send either
-    if hook in REQ_HOOKS and d.crashed is None:
+    if hook in REQ_HOOKS and d.crashed is None and action != "kill":
         s1 = server_for(b"/s1")
         if s1 is not None and s1.state.value & 1:
             d.recv(s1, resp1)
@@ -654,41 +743,35 @@ def run_http2(case, ctx):
         ctx.fail(sh.crash_bucket(d.crashed), repr(d.crashed))
         return
     names = [n for n, h in d.hooks() if getattr(h, "flow", None) is flow]
+    aborted = None
     if hook in REQ_HOOKS:
-        o = all_server_out()
+        o = s1_out()
         orig = {"requestheaders": b"HDRORIG", "request": b"ORIGREQ!"}[hook]
         edit = {"requestheaders": b"HDREDIT", "request": b"EDITREQ!"}[hook]
         n_body, n_orig, n_edit = cnt(o, b"ORIGREQ!"), cnt(o, orig), cnt(o, edit)
-        killed_seen = cnt(o, b"ORIGREQ!") or cnt(o, b"/s1")
+        if action == "edit":
+            n_body = 1
+        # a streamed h2 request is written to the h1 upstream without any body framing (no Content-Length, no
+        # chunking), so "message completed" is not observable there; only "nothing further after kill" is judged
+        ended = (cnt(o, b"ORIGREQ!") + cnt(o, b"EDITREQ!") > 0) and not (after_streamed_body and action == "kill")
+        extra = o[snapshot:]
     else:
-        hd, body = client_s1()
+        hd, body, ended, reset = client_s1()
         tagv = [h.get("x-tag") for h in hd]
-        n_body = cnt(body, b"ORIGRESP!")
+        n_body = cnt(body, b"ORIGRESP!") if action != "edit" else 1
         if hook == "responseheaders":
             n_orig, n_edit = tagv.count("RHDRORIG"), tagv.count("RHDREDIT")
         else:
             n_orig, n_edit = cnt(body, b"ORIGRESP!"), cnt(body, b"EDITRESP!")
-        killed_seen = bool(hd) or bool(body)
-    if action == "resume":
-        if n_body > 1 or (n_body != 1 and not gone):
-            r.fail("not-forwarded-exactly-once", "count=%d" % n_body)
-    elif action == "edit":
-        if n_orig:
-            r.fail("original-forwarded-after-edit", "")
-        if n_edit > 1 or (n_edit != 1 and not gone):
-            r.fail("edit-not-forwarded-exactly-once", "count=%d" % n_edit)
-    else:
-        if killed_seen:
-            r.fail("killed-message-forwarded", "")
-        if flow.error is None:
-            r.fail("killed-flow-without-error")
-        ne = names.count("error")
-        if ne > 1 or (ne != 1 and hook != "response"):
-            r.fail("killed-flow-error-hook-count", "error fired %d times: %r" % (ne, names))
-        if other_done and not gone:
-            # the other stream must be unaffected by the kill: no reset for stream 3
-            if any(isinstance(e, h2.events.StreamReset) and e.stream_id == 3 for e in evs):
-                r.fail("kill-affected-other-stream", "")
+        hd2, body2, ended2, _ = client_s1(snapshot)
+        extra = (hd2, body2, "END_STREAM") if (hd2 or body2 or ended2) else None
+        if after_streamed_body:
+            aborted = reset
+    _judge_http(r, hook, action, gone, after_streamed_body, n_body, n_orig, n_edit, ended, extra, flow, names, aborted)
+    if action == "kill" and other_done and not gone:
+        # the other stream must be unaffected by the kill: no reset for stream 3
+        if any(isinstance(e, h2.events.StreamReset) and e.stream_id == 3 for e in evs):
+            r.fail("kill-affected-other-stream", "")
 
 
 # =========================================================================================== part B: asyncio
@@ -829,12 +912,14 @@ def check_case(case, ctx):
         run_async_hold(case, ctx)
         return
     proto = case["proto"]
-    key = (proto, case.get("hook"), case.get("side"), tuple(case["extras"]), case["action"], case.get("nth"), case.get("frag"))
+    key = (proto, case.get("hook"), case.get("side"), tuple(case["extras"]), case["action"], case.get("nth"), case.get("frag"),
+           case.get("stream"))
     if case["extras"]:
         ctx.nt(key, "%s:%s" % (proto, case["action"]))
     else:
         ctx.cls("no-event-while-held:%s" % proto)
-    ctx.cls("hook:%s:%s" % (proto, case.get("hook") or "message"))
+    ctx.cls("hook:%s:%s%s" % (proto, case.get("hook") or "message",
+                              "" if case.get("stream") in (None, "none") else ":stream-" + case["stream"]))
     RUNNERS[proto](case, ctx)
 
 
@@ -851,10 +936,11 @@ def strategy(ctx):
                                 "action": st.sampled_from(["resume", "edit", "kill", "drop"])})
     dnsc = st.fixed_dictionaries({"part": st.just("A"), "proto": st.just("dns"), "hook": st.sampled_from(["dns_request", "dns_response"]),
                                   "nth": st.integers(0, 1), "extras": _extras, "action": _action})
+    _stream = st.sampled_from(["none", "none", "req", "resp", "resp"])
     h1 = st.fixed_dictionaries({"part": st.just("A"), "proto": st.just("http1"), "hook": st.sampled_from(REQ_HOOKS + RESP_HOOKS),
-                                "extras": _extras, "action": _action})
+                                "stream": _stream, "extras": _extras, "action": _action})
     h2c = st.fixed_dictionaries({"part": st.just("A"), "proto": st.just("http2"), "hook": st.sampled_from(REQ_HOOKS + RESP_HOOKS),
-                                 "extras": _extras, "action": _action})
+                                 "stream": _stream, "extras": _extras, "action": _action})
     partb = st.fixed_dictionaries({"part": st.just("B"), "flow": st.sampled_from(["http", "tcp", "udp", "dns"]),
                                    "ops": st.lists(st.sampled_from(["i", "r", "k", "w", "w"]), min_size=2, max_size=8)})
     return weighted((3, stream), (3, ws), (3, dnsc), (4, h1), (4, h2c), (2, partb))
